@@ -241,7 +241,7 @@ pub fn exec(case: &[i64]) -> Outcome {
 
 pub fn base_issuer() -> IssuerDoc {
   let u = |f: i64| U { d: 1, r: 0, f };
-  IssuerDoc { id: 1, vm: vec![(u(0), 10), (u(1), 11), (u(2), -5)], rels: [vec![Ent::Refer(u(0)), Ent::Embed(u(3), 13)], vec![Ent::Refer(u(1))], vec![Ent::Embed(U { d: 2, r: 0, f: 4 }, 14)], vec![], vec![Ent::Refer(u(6))]],
+  IssuerDoc { id: 1, vm: vec![(U { d: 2, r: 0, f: 1 }, 21), (u(0), 10), (u(1), 11), (u(2), -5)], rels: [vec![Ent::Refer(u(0)), Ent::Embed(u(3), 13)], vec![Ent::Refer(u(1))], vec![Ent::Embed(U { d: 2, r: 0, f: 4 }, 14)], vec![], vec![Ent::Refer(u(6))]],
     svc: vec![(u(7), 70), (u(8), 80), (u(9), 91)], bms: vec![(70, true, vec![5, 9, 70000]), (80, false, vec![]), (91, false, vec![])] }
 }
 pub fn other_issuer() -> IssuerDoc { IssuerDoc { id: 2, vm: vec![(U { d: 2, r: 0, f: 0 }, 20)], svc: vec![(U { d: 2, r: 0, f: 7 }, 71)], bms: vec![(71, true, vec![1])], ..Default::default() } }
